@@ -750,6 +750,10 @@ class Interp:
             if sm.name == "insert":
                 items.insert(self.concrete_key(args[0]), args[1]); self.st.writes.append((obj, "__items__")); return None
             return len(items)
+        if type(obj) is list and sm.name == "extend" and len(args) == 1:
+            # a concrete (function-owned) list extended by the members of a heap sequence
+            obj.extend(self.iterate(args[0]))
+            return None
         t = self.pytype_of(obj)
         for base in t.__mro__:
             m = self.methods.get((base, sm.name))
